@@ -287,60 +287,6 @@ theorem ack_on_transmit_budget (r : Nat) :
 -- ---------------------------------------------------------------------------------------------
 -- counterexamples to the full-strength promptness statement
 
-/-- executable twins of the per-step hypotheses -/
-def timeOkB (g : G) (op : Op) : Bool :=
-  match opTime op with
-  | some t => decide (g.clock ≤ t)
-  | none => true
-
-def noEvictionB (g : G) (op : Op) : Bool :=
-  match op with
-  | .processed p => (AckRanges.insertPn g.s.ackRanges p.pn).2 == .ok
-  | _ => true
-
-def noCutoffB (g : G) (op : Op) : Bool :=
-  match op with
-  | .packetAck a =>
-    match (g.s.ackElicitingTransmissions.onUpdate a).2 with
-    | some r => g.pend.all (fun e => decide (r.hi < e.1))
-    | none => true
-  | _ => true
-
-def allStepsB (pB : G → Op → Bool) : G → List Op → Bool
-  | _, [] => true
-  | g, op :: rest =>
-    pB g op && (match gstep g op with
-      | some g' => allStepsB pB g' rest
-      | none => true)
-
-theorem allSteps_of_B (P : G → Op → Prop) (pB : G → Op → Bool) (hp : ∀ g op, pB g op = true → P g op)
-    (ops : List Op) (g : G) (h : allStepsB pB g ops = true) : AllSteps P g ops := by
-  induction ops generalizing g with
-  | nil => trivial
-  | cons op rest ih =>
-    simp only [allStepsB, Bool.and_eq_true] at h
-    refine ⟨hp g op h.1, fun g' hg => ih g' ?_⟩
-    have := h.2
-    rw [hg] at this
-    exact this
-
-theorem timeOk_of_B (g : G) (op : Op) (h : timeOkB g op = true) : TimeOk g op := by
-  intro t ht
-  unfold timeOkB at h
-  rw [ht] at h
-  simpa using h
-
-theorem noEviction_of_B (g : G) (op : Op) (h : noEvictionB g op = true) : NoEviction g op := by
-  intro p hp
-  subst hp
-  simpa [noEvictionB] using h
-
-theorem noCutoff_of_B (g : G) (op : Op) (h : noCutoffB g op = true) : NoCutoff g op := by
-  intro a r ha hr e he
-  subst ha
-  simp only [noCutoffB, hr, List.all_eq_true, decide_eq_true_eq] at h
-  exact h e he
-
 /-- no ACK frame emitted along the continuation `ext` from state `s` names packet number `x` -/
 def NeverAcked (s : State) (ext : List Op) (x : Nat) : Prop :=
   ∀ pre op post r s' f ping, ext = pre ++ op :: post → run s pre = some r →
@@ -370,29 +316,6 @@ def evictionCheck : Bool :=
     g.s.ackRanges.limit == some 10 && IvSpec.wfB g.s.ackRanges.ivs
   | none => false
 
-theorem evictionCheck_true : evictionCheck = true := by decide +kernel
-
-theorem wf_of_wfB : ∀ (l : List Interval), IvSpec.wfB l = true → IvSpec.WF l := by
-  intro l
-  induction l with
-  | nil => intro _; exact WF.nil
-  | cons a rest ih =>
-    intro h
-    cases rest with
-    | nil =>
-      simp only [IvSpec.wfB, decide_eq_true_eq] at h
-      exact ⟨by simpa using h, by simp⟩
-    | cons b rest' =>
-      simp only [IvSpec.wfB, Bool.and_eq_true, decide_eq_true_eq] at h
-      have hw := ih h.2
-      refine WF.cons h.1.1 hw ?_
-      intro c hc
-      rcases List.mem_cons.1 hc with rfl | hc
-      · exact h.1.2
-      · have := hw.head_lt c hc
-        have := hw.head_valid
-        omega
-
 /-- COUNTEREXAMPLE (a), range eviction: with the default `ack_ranges_limit` = 10, after the 11 isolated
     packets (time monotone, no `on_packet_ack` at all) packet 0 — processed, ack-eliciting, covered by no
     ACK frame — is no longer in `ack_ranges`, and NO continuation of the history ever acknowledges it -/
@@ -402,7 +325,7 @@ theorem ack_evicted_never_acked_counterexample :
       AllSteps NoCutoff (ginit Settings.recommended) evictionHistory ∧
       (0, 0) ∈ g.pend ∧ ¬ PendOK Settings.recommended g.s (0, 0) ∧
       ∀ ext, (∀ p, Op.processed p ∈ ext → p.pn ≠ 0) → NeverAcked g.s ext 0 := by
-  have hc := evictionCheck_true
+  have hc : evictionCheck = true := by decide +kernel
   unfold evictionCheck at hc
   cases hg : grun (ginit Settings.recommended) evictionHistory with
   | none => rw [hg] at hc; cases hc
@@ -435,8 +358,6 @@ def cutoffCheck : Bool :=
     forcedInterest g.s && (onTransmit g.s .none .normal 3000 true).isNone
   | none => false
 
-theorem cutoffCheck_true : cutoffCheck = true := by decide +kernel
-
 /-- COUNTEREXAMPLE (b), the RFC 9000 §13.2.4 cut-off (finding F8): after the four operations (time
     monotone, every insert reported `Ok`) packet 3 — processed, ack-eliciting, out of order, covered by
     no ACK frame — has been removed from `ack_ranges` together with everything ≤ 5; no continuation ever
@@ -449,7 +370,7 @@ theorem ack_below_cutoff_never_acked_counterexample :
       (3, 2000) ∈ g.pend ∧ ¬ PendOK Settings.recommended g.s (3, 2000) ∧
       (forcedInterest g.s = true ∧ onTransmit g.s .none .normal 3000 true = none) ∧
       ∀ ext, (∀ p, Op.processed p ∈ ext → p.pn ≠ 3) → NeverAcked g.s ext 3 := by
-  have hc := cutoffCheck_true
+  have hc : cutoffCheck = true := by decide +kernel
   unfold cutoffCheck at hc
   cases hg : grun (ginit Settings.recommended) cutoffHistory with
   | none => rw [hg] at hc; cases hc
